@@ -775,6 +775,11 @@ def main(argv):
         "result; non-trivial = the map denoted by the recipe is not identically zero"
     )
     run.exhaustive = True
+    import os
+
+    if os.environ.get("C28_DUMP_KEYS"):  # used by the detection self-test to diff violation keys
+        with open(os.environ["C28_DUMP_KEYS"], "w") as f:
+            f.write("\n".join(sorted(v["key"] for v in run.violations)) + "\n")
     run.assumptions += [
         "Action contracts the last argument of the left operand with the first of the right (docstrings of ufl/action.py)",
         "Adjoint is the conjugate transpose (docstring of ufl.formoperators.adjoint); coefficient dof vectors are real in "
